@@ -497,8 +497,8 @@ def main(argv):
             "trusted_base": [
                 "Coq 8.16.1 kernel (coqc); vm_compute for finite checks, KATs and model evaluation; no native_compute",
                 "axioms reported by Print Assumptions: " + (", ".join(sorted({a for v in axioms.values() for a in v})) or "none (every property theorem is closed under the global context)"),
-                "translator tools/src2v.py (Tie A) and the lemmas of theories/SrcTie.v",
-                "correspondence harness /verif/harness (Tie B): generators, canonicalisation, oracles",
+                "translators tools/src2v.py, tools/src2v2.py, tools/src2v2b.py with the Rust-subset parser tools/rustmini.py (Tie A: coq/gen/Src.v, Src2.v regenerated from /repo on every run) and the lemmas of theories/SrcTie*.v, SrcTie2*.v; extraction is not used (no Extract directive anywhere)",
+                "correspondence harness /verif/harness and job scripts tools/cli/*.py, tools/keys/*.py (Tie B): generators, canonicalisation, oracles, the independent crates they use",
             ] + trusted,
             "theorems": thms,
             "cone_files": cone,
